@@ -273,7 +273,7 @@ def run_history(ops):
 class HistoryArm(Arm):
     name = "history"
     kind = "stateful"
-    budget = {"quick": 1600, "thorough": 40000}
+    budget = {"quick": 6000, "thorough": 60000}
     steps = {"quick": 30, "thorough": 50}
     min_per_shard = 50
     required_labels = ("growth@1024", "growth@2048", "interior_irregular", "refused", "mutate", "dtype:f4",
